@@ -10,6 +10,7 @@ import Props.Tables
 import Proofs.LexerRoundTrip
 import Props.Bytes
 import Proofs.QuotedIdent
+import Proofs.JsonValue
 namespace Jmes.Props
 open Jmes Jmes.Lexer
 
@@ -175,5 +176,18 @@ theorem C14_quoted_identifier_selects_key {N : Type} [NumOps N] (s : Bytes) (hv 
     rw [Parser.parseTokens_congr (sameDecisions_of_tableOK Generated.table Spec.table generated_table_ok spec_table_ok)]
     exact Parser.round_trip_spec (PE.quoted s) trivial
   simp only [Api.search, hcomp, Interp.eval]
+
+/-! ### literals -/
+
+open Jmes.Json in
+/-- For every JSON value `v` (finite numbers, well-formed UTF-8, ascending keys),
+    the text `json.Marshal` writes for `v` decodes to exactly `v` — so the
+    backtick literal spelled as that text (with `` ` `` written `` \` ``,
+    `C14_literal_unescape`) denotes exactly `v`.  Conditional on `NumCodec`
+    (the number text codec is ported, not verified). -/
+theorem C14_literal_text_denotes_value {N : Type} [NumOps N] (hN : NumCodec N) (v : Val N) (hv : okV v) (hd : depthV v ≤ maxDepth) :
+    (Json.decode (unescapeBacktick (btSpell (encode v))) : Option (Val N)) = some v := by
+  rw [unescapeBacktick_btSpell]
+  exact decode_encode hN v hv hd
 
 end Jmes.Props
